@@ -90,9 +90,14 @@ def run_case(case):
         f0, g0 = sde.f(ts[0], y0), sde.g(ts[0], y0)
         ts_rev = -ts.flip(0)
         rev_api = torchsde.sdeint_adjoint if case.get("reverse_via_adjoint") else torchsde.sdeint
+        supplied = (-fT, -gT, zT)
+        supplied_before = tuple(x.clone() for x in supplied)
+        y_end_before = ys[-1].clone()
         ys_rev, (fr, gr, zr) = rev_api(Reversed(sde), ys[-1], ts_rev, bm=ReverseBrownian(bm),
                                        method="reversible_heun", dt=dt, extra=True,
-                                       extra_solver_state=(-fT, -gT, zT))
+                                       extra_solver_state=supplied)
+        mutated = not all(torch.equal(a_, b_) for a_, b_ in zip(supplied, supplied_before)) or \
+            not torch.equal(ys[-1], y_end_before)
         ys_again = None
         if case.get("third_leg"):
             # the reverse run reversed once more: SDE Reversed(Reversed(sde)) (= sde), Brownian motion reversed twice,
@@ -115,7 +120,10 @@ def run_case(case):
         (["reverse_leg_via_sdeint_adjoint"] if case.get("reverse_via_adjoint") else []) + \
         (["sparse_outputs"] if case.get("sparse") and case.get("inside") and not case.get("clip_frac") else [])
     fail = None
-    if not (e <= tol) or not bool(torch.isfinite(back).all()):
+    if mutated:
+        fail = Fail("supplied_state_modified", "the reverse solve modified the state / extra solver state it was given in "
+                                               "place (it cannot be used for a second reverse solve)", sig)
+    elif not (e <= tol) or not bool(torch.isfinite(back).all()):
         fail = Fail("not_reversible", f"reverse solve reconstructs the forward trajectory only to {e:.3e} (relative) over "
                                       f"{n} step(s) of size {dt} ({spec['noise_type']} noise)", sig)
     elif not e_extra <= tol:
